@@ -51,7 +51,8 @@ def A(k, d=None):
 
 ALPHABET = [A("return"), A("raise"), A("skip"), A("fire"), A("fire", 0), A("fire", 1),
             A("fire", 3), A("fail"), A("fail", 1), A("never"), A("leave", 0), A("leave", 2),
-            A("leave", 1000), A("log_err"), A("log_flush"), A("drop")]
+            A("leave", 1000), A("log_err"), A("log_flush"), A("drop"), A("relay")]
+# relay: leaves a zero-delay call that, when it fires, schedules a far-away call -- something is left scheduled whenever the run ends
 
 
 # ----------------------------------------------------------------- model ----
@@ -89,6 +90,8 @@ def predict(sc, ties_before):
             skipped = True
         elif k == "leave":
             leftovers.append(t + d)
+        elif k == "relay":
+            leftovers.append(t + 1000)
         t = INF if k == "never" else t + (d if k in ("fire", "fail") else 0)
         if not before(t, cut):
             was_cut = True
@@ -204,6 +207,8 @@ def run_scenario(sc):
             return defer.Deferred()
         if k == "leave":
             reactor.callLater(d, lambda: None)
+        if k == "relay":
+            reactor.callLater(0, reactor.callLater, 1000, lambda: None)
         if k in ("log_err", "log_flush"):
             log.err(RuntimeError("logged in " + name))
             if k == "log_flush":
@@ -254,6 +259,23 @@ def run_scenario(sc):
            "raised": raised, "hung": bool(getattr(reactor, "hung", False))}
     for call in pending:  # leave the process clean for the next scenario
         call.cancel()
+    if not real and any(a["k"] == "log_err" for _, a in stages_of(sc)):
+        # history: the next test of the same process, doing nothing at all, must be reported as a success -- what an earlier run
+        # logged (however that run ended) is not a blemish of THIS test
+        class Clean(testtools.TestCase):
+            def test_clean(self):
+                pass
+        r2 = make_vreactor(None)
+        f2 = cls.make_factory(reactor=r2, timeout=5, suppress_twisted_logging=sc["suppress"], store_twisted_logs=sc["store"])
+        res2 = ExtendedTestResult()
+        try:
+            Clean("test_clean", runTest=f2).run(res2)
+            obs["followup"] = [e[0] for e in res2._events]
+        except BaseException as e:  # noqa
+            obs["followup"] = ["raised %r" % (e,)]
+        for call in r2.getDelayedCalls():
+            call.cancel()
+        del r2, f2, res2
     log.removeObserver(probe)
     del case, result, reactor, factory, keep_alive
     gc.collect()  # self-contained: a failed Deferred kept alive by a traceback cycle must not be
@@ -290,6 +312,9 @@ def judge(sc, obs):
         return "no delayed calls pending in the reactor after the run"
     if not obs["observers_same"]:
         return "Twisted log observers after the run are exactly those installed before"
+    if obs.get("followup") not in (None, ["startTest", "addSuccess", "stopTest"]):
+        return ("the next test run in the same process (a test that does nothing) is reported as startTest, addSuccess, stopTest: "
+                "errors logged during an earlier run do not leak into it")
     return None
 
 
@@ -361,7 +386,7 @@ def random_scenarios(rng):
     while True:  # (C)
         def action():
             k = rng.choice(["return", "return", "raise", "skip", "fire", "fire", "fail", "never",
-                            "leave", "log_err", "log_flush", "drop"])
+                            "leave", "log_err", "log_flush", "drop", "relay"])
             d = rng.choice([None, 0, 1, 2, 3]) if k in ("fire", "fail") else \
                 rng.choice([0, 1, 2, 1000]) if k == "leave" else None
             return A(k, d)
@@ -378,7 +403,7 @@ def priority(target):
     if "cleanup" in t:
         return lambda sc: not any(a["k"] != "return" for a in sc["cleanups"])
     if any(w in t for w in ("spinner", "blocking", "timed_out", "_clean", "junk")):
-        return lambda sc: not (sc["interrupt"] is not None or has(sc, ("never", "leave")))
+        return lambda sc: not (sc["interrupt"] is not None or has(sc, ("never", "leave", "relay")))
     if any(w in t for w in ("observer", "log", "capture", "run_core", "trap")):
         return lambda sc: not has(sc, ("log_err", "log_flush", "drop", "never"))
     if "run_deferred" in t or "run_user" in t:
